@@ -264,6 +264,28 @@ impl Wake for Parent {
     }
 }
 
+fn sp_wake<const ID: u32>(_p: *const ()) {
+    sched::point("pwake");
+    sched::emit(json!({"ev":"pwake","p":ID}));
+}
+fn sp_clone<const ID: u32>(p: *const ()) -> std::task::RawWaker {
+    std::task::RawWaker::new(p, sp_vtable(ID))
+}
+fn sp_drop(_p: *const ()) {}
+static SP_VTABLES: [std::task::RawWakerVTable; 3] = [
+    std::task::RawWakerVTable::new(sp_clone::<1>, sp_wake::<1>, sp_wake::<1>, sp_drop),
+    std::task::RawWakerVTable::new(sp_clone::<2>, sp_wake::<2>, sp_wake::<2>, sp_drop),
+    std::task::RawWakerVTable::new(sp_clone::<3>, sp_wake::<3>, sp_wake::<3>, sp_drop),
+];
+fn sp_vtable(id: u32) -> &'static std::task::RawWakerVTable {
+    &SP_VTABLES[(id - 1) as usize]
+}
+fn shared_parent(id: u32) -> Waker {
+    static SHARED: u8 = 0;
+    // SAFETY: the vtable functions never dereference or free the data pointer
+    unsafe { Waker::from_raw(std::task::RawWaker::new(std::ptr::from_ref(&SHARED).cast(), sp_vtable(id))) }
+}
+
 enum Dq {
     Send(FutureDeque<Out>),
     Local(LocalFutureDeque<Out>),
@@ -312,7 +334,13 @@ fn take_out(o: Out) -> u32 {
 fn deque_task(stim: Value, ctx: Arc<RunCtx>) {
     let local = stim["variant"].as_str() == Some("local");
     let mut dq = Some(if local { Dq::Local(LocalFutureDeque::new()) } else { Dq::Send(FutureDeque::new()) });
-    let parents: Vec<Waker> = (1..=3).map(|id| Waker::from(Arc::new(Parent { id }))).collect();
+    // "parents":"shared-data": the three task wakers share one data pointer and differ in their vtable only (an index-style
+    // or data-less waker of a hand-written executor): `will_wake` between them is false, a comparison of data pointers is not
+    let parents: Vec<Waker> = if stim["parents"].as_str() == Some("shared-data") {
+        (1..=3).map(shared_parent).collect()
+    } else {
+        (1..=3).map(|id| Waker::from(Arc::new(Parent { id }))).collect()
+    };
     let mut ops: Vec<Value> = stim["dops"].as_array().cloned().unwrap_or_default();
     if ops.last().map(|o| o["op"].as_str() != Some("drop")).unwrap_or(true) {
         ops.push(json!({"op":"drop"}));
